@@ -41,3 +41,21 @@ def run(ctx):
     ctx.assume("frame size = 48 + query + body, bodies are padded so that the frame hits each size exactly",
                "the proxy has no error hooks, so 'reported' is not required on that path",
                "inbound limits of the raw peer are disabled so that it can measure oversize messages instead of failing on them")
+
+    # the proxy loop as a whole: ProxyConn.tla (one frame at a time, the outbound guard on the forwarded reply, exits),
+    # every complete behaviour replayed on proxy_connection_with_limits between a raw peer and a scripted upstream
+    ctx.tlc_mc("MC_ProxyConn", "MC_ProxyConn.cfg")
+    ctx.tlc_mc("MC_ProxyConn", "MC_ProxyConn_noguard.cfg", expect_violation="NoOversize")
+    beh = ctx.tlc_generate("MC_ProxyConn", "MC_ProxyConnGen.cfg", ["ProxyConn.tla"], timeout=1200)
+    po = ctx.work / "proxy.json"
+    ctx.vh("proxy-replay", "--behaviours", beh, "--every", 4 if q else 1, "--out", po, timeout=3000)
+    pr = json.loads(po.read_text())
+    for f in pr["failures"]:
+        kinds = "-".join(x["kind"] for x in f["behaviour"]["script"])
+        ctx.violation(f"proxy:{f['behaviour']['phase']}:{kinds}", f"proxy_connection_with_limits, script {kinds}, environment {json.dumps(f['behaviour']['env'])}: {f['what']}", f)
+    if pr["behaviours"] < 300 and not pr["failures"]:
+        raise vlib.ToolError(f"only {pr['behaviours']} ProxyConn behaviours replayed")
+    ctx.coverage["proxy_replay"] = {k: pr[k] for k in ("behaviours", "steps", "by_phase")}
+    ctx.coverage["traces_validated_against_impl"] += pr["behaviours"]
+    ctx.coverage["evaluations"] += pr["steps"]
+    ctx.assume("ProxyConn: the upstream is a scripted raw-TCP peer; 'die idle' closes its connection 25 ms before the peer's next frame")
